@@ -49,6 +49,7 @@ def worker_subclasses(cx):
 
 def check(repo, rep):
     cx = Ctx(repo)
+    rep.cx = cx
     pr = Protocol(cx, rep)
     W = lambda n: cx.where(MOD, n)
     wcls = pr.worker
@@ -99,7 +100,7 @@ def check(repo, rep):
                             rep.ob('F2: every blocking get carries a timeout (a worker can always notice its stop marker)', nonblocking, cx.where(mod, n), '%s.%s:get-without-timeout' % (cl.name if cl else mod, fn.name if fn else '?'))
                     else:
                         rep.ob('F2: the inbox object does not escape', False, cx.where(mod, n), '%s.%s:inbox-escapes' % (cl.name if cl else mod, fn.name if fn else '?'))
-    rep.floor('inbox accesses', nacc, 6)
+    rep.floor('inbox accesses', nacc, 4)
     # ---------------------------------------------------------------- F4 _get_message
     gm = cx.model.find_method(MOD, wcls, '_get_message')
     if gm is None:
@@ -238,9 +239,8 @@ def check(repo, rep):
                 nt = cx.model.mods[MOD]['consts'].get('_Detection')
                 fields = None
                 if dv[0] == 'call' and dv[1][0] == 'g':
-                    ntn = cx.model.mods[MOD]['consts'].get(dv[1][2])
-                    if isinstance(ntn, ast.Call) and len(ntn.args) == 2 and isinstance(ntn.args[1], ast.Constant):
-                        fields = ntn.args[1].value.replace(',', ' ').split()
+                    from ..facts import tuple_fields
+                    fields = tuple_fields(cx, dv[1])
                 want = dict(id=idt, start=('attr', ('attr', reg, 'meta'), 'start'), end=('attr', ('attr', reg, 'meta'), 'end'), duration=('attr', reg, 'duration'))
                 alt = dict(start=('attr', reg, 'start'), end=('attr', reg, 'end'))
                 if fields and dv[0] == 'call' and len(dv[2]) + len(dv[3]) == len(fields) and all(k in fields for k, _ in dv[3]):
